@@ -55,6 +55,22 @@ def s1_bodies():
                 yield {"init": [1, 1], "ctl": [], "rules": [{"cond": c, "then": close1, "else": open1, "prio": 3}]}
 
 
+def s1b_bodies():
+    """scope S1b: two or three simple controls inside ONE hydraulic step on the same link, incl. controls whose action
+    changes nothing (firing without effect must not disturb the timing of the following ones)"""
+    inst = [900, 1800, 2700, 3240, 4500]
+    for i, t1 in enumerate(inst):
+        for t2 in inst[i + 1:]:
+            for v1 in (0, 1):
+                for v2 in (0, 1):
+                    for init in (0, 1):
+                        for kind in ("sim", "clock"):
+                            yield {"init": [init, 1],
+                                   "ctl": [{"kind": kind, "thr": t1, "rep": 0, "link": 1, "val": v1, "prio": 3},
+                                           {"kind": "sim", "thr": t2, "rep": 0, "link": 1, "val": v2, "prio": 3}],
+                                   "rules": []}
+
+
 def s2_random(rnd, n):
     """scope S2: up to 3 controls / rules over 2 links, priorities from 3 levels, same-instant conflicts."""
     opts = list(options_grid())
@@ -232,11 +248,22 @@ def main(tier, replay):
         for o in options_grid():
             for b in s1_bodies():
                 s = dict(o); s.update(b); s1.append(s)
+        s1b = []
+        for o in options_grid():
+            if o["Dur"] != 86400:
+                continue
+            for b in s1b_bodies():
+                s = dict(o); s.update(b)
+                if b["ctl"][0]["kind"] == "clock":       # clock threshold chosen so that the instant is thr after the start
+                    s["ctl"] = [dict(b["ctl"][0], thr=(b["ctl"][0]["thr"] + o["Start"]) % 86400), b["ctl"][1]]
+                s1b.append(s)
         if tier == "quick":
             rnd.shuffle(s1)
-            s1 = s1[:1200]
-            s2 = s2_random(rnd, 800)
+            rnd.shuffle(s1b)
+            s1 = s1[:1000] + s1b[:400]
+            s2 = s2_random(rnd, 700)
         else:
+            s1 = s1 + s1b
             s2 = s2_random(rnd, 30000)
         scns = s1 + s2
         ck.cov["exhaustive"] = (tier == "thorough")
